@@ -17,8 +17,6 @@ impl Runner {
     { unimplemented!() }
 }
 
-#[verifier::external_body]
-pub fn usize_into_value(i: usize) -> (r: Value) { unimplemented!() }
 
 impl Value {
     // `.try_bytes_utf8_lossy()?.into()` : Value -> KeyString or a (non control-flow) Error
